@@ -790,6 +790,19 @@ class _Frame:
         raise self.bad("starred expression", n)
 
     def e_Attribute(self, n):
+        if isinstance(n.value, ast.Call) and dotted(n.value.func) == "super" and not n.value.args:
+            # super().prop / super().method (not called here)
+            if self.clo is None or self.clo.finfo is None or self.clo.finfo.cls is None:
+                raise self.bad("super() outside a method", n)
+            selfobj = self.env.get("self")
+            if not isinstance(selfobj, XObj):
+                raise self.bad("super() without a modelled self", n)
+            f = self.I.repo.lookup_method(selfobj.cls, n.attr, start_after=self.clo.finfo.cls)
+            if f is None:
+                raise self.bad(f"super().{n.attr} not found", n)
+            if f.is_property():
+                return self.I.call_function(f, [], self_obj=selfobj)
+            return _Bound(self.I, f, selfobj)
         obj = self.ev(n.value)
         return self.getattr(obj, n.attr, n)
 
@@ -1298,12 +1311,21 @@ def _np_sort(a, axis=-1, **kw):
     raise XArrayError("np.sort of this rank / axis is not modelled")
 
 
-def _np_unique(a, **kw):
+def _np_unique(a, return_index=False, return_inverse=False, return_counts=False, **kw):
     if kw:
         raise XArrayError("np.unique with options")
     a, v = _ints(a, "unique")
+    if a.ndim != 1 and (return_index or return_inverse or return_counts):
+        raise XArrayError("np.unique with options on a non 1-D array")
     u = sorted(set(v))
-    return XArray((len(u),), u)
+    out = [XArray((len(u),), u)]
+    if return_index:
+        out.append(XArray((len(u),), [v.index(x) for x in u]))  # first occurrence, as numpy
+    if return_inverse:
+        out.append(XArray((len(v),), [u.index(x) for x in v]))
+    if return_counts:
+        out.append(XArray((len(u),), [v.count(x) for x in u]))
+    return out[0] if len(out) == 1 else tuple(out)
 
 
 def _np_searchsorted(a, v, side="left", sorter=None):
